@@ -152,7 +152,7 @@ func checkCoinSelectorArithmetic(c *core.Ctx) {
 			}
 		}
 	}
-	c.Floor("uses of the minimum-change field in the coin selector", nMC, 3)
+	c.Floor("uses of the minimum-change field in the coin selector", nMC, 1)
 	c.Floor("capacity-limited appends in the coin selector", nApp, 1)
 }
 
